@@ -48,14 +48,21 @@ def oracle(case, rec):
     scale = 1e-12 * (1 + H.sum())
     outs = {}
     lay = case.get('layout', 'C')
-    ins = [gens.relayout(x.copy(), lay) for x in (f1, f2, a2)]      # what the routine gets (the case stays pristine)
+    if case.get('dtype', 'f8') == 'f4':      # single-precision frequencies: the brute force works on the exact stored values
+        f1 = f1.astype(np.float32).astype(float)
+        f2 = f2.astype(np.float32).astype(float)
+        H = brute(f1, f2, a2, e1, e2, mode)
+        scale = 1e-12 * (1 + H.sum())
+    rec.cls('dtype=' + case.get('dtype', 'f8'))
+    ft_ = np.float32 if case.get('dtype', 'f8') == 'f4' else np.float64
+    ins = [gens.relayout(f1.astype(ft_), lay), gens.relayout(f2.astype(ft_), lay), gens.relayout(a2.copy(), lay)]   # what the routine gets
     rec.cls('layout=' + lay)
     for sq in (False, 'sum', 'mean'):
         try:
             outs[sq] = np.asarray(emd.spectra.holospectrum(ins[0], ins[1], ins[2], e1.copy(), e2.copy(), mode=mode, squash_time=sq))
         except Exception as e:
             raise Violation('C11/raises/%s/squash=%s' % (type(e).__name__, sq), repr(e))
-    if not all(np.array_equal(x, y) for x, y in zip(ins, (f1, f2, a2))):
+    if not all(np.array_equal(x, y) for x, y in zip(ins, (f1.astype(ft_), f2.astype(ft_), a2))):
         raise Violation('C11/input-modified', '')
     exp = {False: H, 'sum': H.sum(axis=0), 'mean': H.mean(axis=0)}
     oor1 = bool(((f1 < e1[0]) | (f1 >= e1[-1])).any())
@@ -118,7 +125,8 @@ def random_case(draw):
         return f
     return {'f1': vals((T, M), e1, lo1, hi1), 'f2': vals((T, M, K), e2, lo2, hi2),
             'a2': np.round(rng.random((T, M, K)) * 3, 4), 'e1': e1, 'e2': e2,
-            'mode': draw(st.sampled_from(['energy', 'amplitude'])), 'layout': draw(st.sampled_from(gens.LAYOUTS))}
+            'mode': draw(st.sampled_from(['energy', 'amplitude'])), 'layout': draw(st.sampled_from(gens.LAYOUTS)),
+            'dtype': draw(st.sampled_from(['f8', 'f8', 'f4']))}
 
 
 CLAUSES = [
